@@ -151,6 +151,7 @@ PROPS = {
                 "lineLoop_count", "lineOf_eq", "lineOf_spec", "mem_lineSet", "ascending_lineSet",
                 "analyzeLines_spec", "analyzeLines_ascending",
             ],
+            "Solstat.Props.C15": ["entry_frame_as_modelled"],
         },
         "obs": [("line", []), ("det", [])],
         "kinds": ["LINE", "LINES"],
@@ -287,6 +288,7 @@ PROPS = {
         "obs": [("det", ["--hostile"])],
         "kinds": ["DET", "LINES", "FILE"],
         "viol_only_prefix": "panic",
+        "disagree_only_prefix": "panic",   # what a detector returns is C05-C09's business; C04 is about returning at all
         "release_too": True,
         "rule": "a case is one (file, detector) or (file, pattern) call under catch_unwind; distinct by SHA-1 of the request line; non-trivial when the implementation returns findings (the hostile stream aims at the panic sites: no pragma, free functions, huge literals, odd pragma values, address(), >256 functions, deep nesting)",
         "assumptions": [
@@ -327,7 +329,9 @@ PROPS = {
     },
     "C15": {
         "theorems": {
-            "Solstat.Props.C16": ["entry_local", "no_global_state"],
+            "Solstat.Props.C16": ["entry_local"],
+            "Solstat.Props.C15": ["no_global_state", "entry_frame_as_modelled"],
+            "Solstat.Props.C17": ["fileNo_irrelevant"],
             "Solstat.Props.C03": ["analyzeDir_exact"],
         },
         "obs": [("dir", []), ("threads", [])],
@@ -346,6 +350,7 @@ PROPS = {
         },
         "obs": [("render", [])],
         "kinds": ["RENDER", "FULLREPORT"],
+        "foreign_prefix": ("stale",),   # a report file that keeps text of the previous run is C18's violation
         "rule": "a case is one findings map (random subset of patterns, 0-6 files per pattern with names containing spaces, colons, dashes, unicode, the list marker; line sets incl. 0 and 2^31-1) rendered by the real generate_*_report; distinct by SHA-1; non-trivial when at least one entry is listed",
         "assumptions": [
             "the read-back theorem is about structured lines (text | entry file line); the textual form `- file:line` is parsed by the oracle (split at the last colon) on every real report — that parse is tested, not proved",
@@ -361,6 +366,7 @@ PROPS = {
         },
         "obs": [("render", [])],
         "kinds": ["RENDER", "FULLREPORT"],
+        "foreign_prefix": ("stale",),   # a report file that keeps text of the previous run is C18's violation
         "assumptions": [
             "findings maps as the analysis produces them: keys only with non-empty vectors (a key with an empty vector makes a category part appear without sections; such maps are rendered too and agree with the model)",
             "all 16 subsets of the four vulnerability patterns x random multiplicities are rendered on every run",
@@ -374,6 +380,7 @@ PROPS = {
         },
         "obs": [("render", [])],
         "kinds": ["RENDER", "FULLREPORT"],
+        "foreign_prefix": ("stale",),   # a report file that keeps text of the previous run is C18's violation
         "extra": c13_extra,
         "assumptions": [
             "per-process RandomState is represented by a universally quantified permutation of the map's entries; that a HashMap cannot do anything a permutation cannot is an assumption (runtime part: the same findings are rendered in fresh processes and the binary is run repeatedly on differently-created trees; bytes must be identical)",
@@ -413,6 +420,7 @@ PROPS = {
         },
         "obs": [("relayout", [])],
         "kinds": ["TOKMAP", "RELAY", "STRLIT", "LINES"],
+        "viol_exclude_prefix": "panic",   # a detector that aborts is C04's violation, not a layout dependence
         "rule": "a case is one (base layout, re-layout, detector): the base layout separates every token by one space; the re-layout inserts random white space, LF/CRLF, line/block/doc comments with code-like text and multi-byte characters between all tokens (pragma directives are copied verbatim: their value is one token); STRLIT cases replace the content of every string literal by code-like text of the same length; distinct by SHA-1 of the request line; non-trivial when the detector flags something in the base layout",
         "assumptions": [
             "assumption about the parser, evaluated on every sample (TOKMAP): the re-laid-out text parses to exactly the relocated tree, tree2 = mapLoc rho tree1, with rho the map induced by the token offsets (starts to starts, ends to ends; a location's end may be the start of the following token, an empty range sits between two tokens) and rho injective on the locations of the tree; C17_sample turns that into the hypothesis of the equivariance theorems",
@@ -429,6 +437,9 @@ PROPS = {
         },
         "obs": [("render", [])],
         "kinds": ["FULLREPORT"],
+        # what the report says is C11-C13's business; C18 is about the file being (re)written whole
+        "viol_only_prefix": ("stale", "MISSING", "PANIC"),
+        "disagree_only_prefix": ("stale", "MISSING", "PANIC"),
         "extra": c18_extra,
         "rule": "a case is a scratch tree with a chosen working directory (parent of ./contracts, outside with --path, equal to the analysed directory, inside a sub-directory of it), optionally a stale report, and 2-3 repeated runs of the built binary with a byte snapshot of the whole tree before and after; thorough adds strace of every path opened for writing; plus in-process generate_report over a stale file",
         "assumptions": [
@@ -446,6 +457,7 @@ PROPS = {
         },
         "obs": [("compose", [])],
         "kinds": ["COMPOSE"],
+        "viol_exclude_prefix": "panic",   # a detector that aborts is C04's violation, not an interference between items
         "rule": "a case is one (file, detector): the file has >= 2 top-level items; for every item the file is re-parsed with all other non-pragma items blanked (bytes -> spaces, line feeds kept) and the real detector is run on the whole and on every blanked variant; distinct by SHA-1; non-trivial when the whole file has findings",
         "assumptions": [
             "assumption about the parser, evaluated on every sample: blanking all other items yields exactly the whole tree with those items removed and all locations unchanged (`keep i`)",
